@@ -26,7 +26,9 @@ func main() {
 		chk.Finish()
 	}
 	runMatrix()
+	runArgProducts()
 	runArray()
+	runArrayArgProducts(chk.Pick(2, 4))
 	chk.Finish()
 }
 
@@ -1013,6 +1015,21 @@ func replay(path string) {
 	var raw map[string]interface{}
 	if err := mc.LoadReplay(path, &raw); err != nil {
 		fmt.Println("cannot load replay:", err)
+		return
+	}
+	if k, _ := raw["Kind"].(string); k == "args" {
+		var c argcase
+		mc.LoadReplay(path, &c)
+		argOne(chk.NewLocal(), c)
+		fmt.Printf("replay %s%v on %dx%d content %d\n", c.Op, c.Args, c.W, c.H, c.Init)
+		chk.Count("evaluations", 1)
+		return
+	} else if k == "array-args" {
+		var c aargcase
+		mc.LoadReplay(path, &c)
+		aargOne(chk.NewLocal(), c)
+		fmt.Printf("replay BitArray %s%v size %d content %d\n", c.Op, c.Args, c.Size, c.Init)
+		chk.Count("evaluations", 1)
 		return
 	}
 	if _, ok := raw["W"]; ok {
